@@ -19,7 +19,11 @@ package metadata
 // has applied everything before it. Then AllRoutes/LookupOwner must equal etcd's content.
 
 import (
+	"bytes"
 	"context"
+	"errors"
+	"runtime/pprof"
+	"sync/atomic"
 	"fmt"
 	"io"
 	"log/slog"
@@ -53,6 +57,8 @@ type c20Ctl struct {
 	// watch channel, in order. The router handles one response completely before it takes
 	// the next one, so "response N+1 taken" implies "response N applied".
 	delivered chan []string
+	// failNextGet: the next read the router issues fails once (etcd unavailable for a moment)
+	failNextGet atomic.Bool
 }
 
 type c20Stream struct {
@@ -90,6 +96,9 @@ type c20KV struct {
 func (k *c20KV) Get(ctx context.Context, key string, opts ...clientv3.OpOption) (*clientv3.GetResponse, error) {
 	if !k.ctl.park(ctx, "get") {
 		return nil, ctx.Err()
+	}
+	if k.ctl.failNextGet.CompareAndSwap(true, false) {
+		return nil, errors.New("vf c20: injected etcd read failure (etcdserver: request timed out)")
 	}
 	return k.KV.Get(ctx, key, opts...)
 }
@@ -260,6 +269,9 @@ type c20Case struct {
 	hist    []c20Write
 	current *c20Stream
 	pendingWatch bool
+	watcherDead  bool // the router's watch goroutine exited although the router was not stopped
+	failReload   bool
+	failedReload bool
 	lease       clientv3.Lease
 	leases      []clientv3.LeaseID
 	multi       bool // some revision changed several lease keys
@@ -357,12 +369,37 @@ func (c *c20Case) applyOp(phase string, op c20Op, brokers []string) error {
 // waitArrive waits until the router parks at one of its etcd calls and says which one.
 // The harness does not assume the router's call sequence: whatever it parks at is handled.
 func (c *c20Case) waitArrive() (string, error) {
-	select {
-	case got := <-c.ctl.arrived:
-		return got, nil
-	case <-time.After(60 * time.Second):
-		return "", fmt.Errorf("%w: router never reached its next etcd call", errC20Inconclusive)
+	deadline := time.After(60 * time.Second)
+	tick := time.NewTicker(200 * time.Millisecond)
+	defer tick.Stop()
+	gone := 0
+	for {
+		select {
+		case got := <-c.ctl.arrived:
+			return got, nil
+		case <-tick.C:
+			// Not a timeout: is there still a goroutine running this router flavour's watch loop?
+			// (A stopped router of an earlier case may linger for about a second and only makes
+			// us wait longer.) Two observations in a row without one = the watcher has exited.
+			if c20WatcherAlive(c.f.name) {
+				gone = 0
+			} else if gone++; gone >= 2 {
+				return "dead", nil
+			}
+		case <-deadline:
+			return "", fmt.Errorf("%w: router never reached its next etcd call", errC20Inconclusive)
+		}
 	}
+}
+
+func c20WatcherAlive(flavour string) bool {
+	var buf bytes.Buffer
+	_ = pprof.Lookup("goroutine").WriteTo(&buf, 1)
+	frame := "metadata.(*PartitionRouter).watch"
+	if flavour == "group" {
+		frame = "metadata.(*GroupRouter).watch"
+	}
+	return strings.Contains(buf.String(), frame)
 }
 
 func (c *c20Case) letGo() error {
@@ -459,6 +496,8 @@ type c20Plan struct {
 	Outage   []c20Op // after the cut, before the reload
 	Gap2     []c20Op // between reload and watch restart
 	Live2    []c20Op
+	FailReload  bool // the reload read after the first cut fails once
+	FailReload2 bool
 	SecondCut bool
 	Outage2  []c20Op
 	Live3    []c20Op
@@ -517,20 +556,37 @@ func (c *c20Case) run(p c20Plan) (string, error) {
 	// reconnect: let reads through (writes of the "outage" phase were already applied) until
 	// the router parks at Watch; apply the gap writes there; let the watch start; live writes.
 	reconnect := func(gap, live []c20Op, gapName, liveName string) error {
-		for !c.pendingWatch {
+		for !c.pendingWatch && !c.watcherDead {
 			got, err := c.waitArrive()
 			if err != nil {
 				return err
 			}
+			if got == "dead" {
+				c.watcherDead = true
+				break
+			}
 			if got == "watch" {
 				c.pendingWatch = true
 				break
+			}
+			if c.failReload {
+				c.failReload = false
+				c.failedReload = true
+				c.ctl.failNextGet.Store(true)
+				c.hist = append(c.hist, c20Write{Phase: gapName + "/reload-read-fails-once", Key: "-", Val: ""})
 			}
 			if err := c.letGo(); err != nil {
 				return err
 			}
 		}
 		c.pendingWatch = false
+		if c.watcherDead {
+			// nobody is watching any more; the remaining history still happens in etcd
+			if err := apply(gapName, gap); err != nil {
+				return err
+			}
+			return apply(liveName, live)
+		}
 		if err := apply(gapName, gap); err != nil {
 			return err
 		}
@@ -545,7 +601,14 @@ func (c *c20Case) run(p c20Plan) (string, error) {
 	if err := reconnect(p.Gap1, p.Live1, "gap", "live"); err != nil {
 		return "", err
 	}
-	cut := func(outage, gap, live []c20Op, n string) error {
+	cut := func(outage, gap, live []c20Op, n string, failReload bool) error {
+		if c.watcherDead {
+			if err := apply("outage"+n, outage); err != nil {
+				return err
+			}
+			return reconnect(gap, live, "gap"+n, "live"+n)
+		}
+		c.failReload = failReload
 		close(c.current.cut)
 		if err := apply("outage"+n, outage); err != nil {
 			return err
@@ -554,11 +617,11 @@ func (c *c20Case) run(p c20Plan) (string, error) {
 		return reconnect(gap, live, "gap"+n, "live"+n)
 	}
 	if p.Cut {
-		if err := cut(p.Outage, p.Gap2, p.Live2, "2"); err != nil {
+		if err := cut(p.Outage, p.Gap2, p.Live2, "2", p.FailReload); err != nil {
 			return "", err
 		}
 		if p.SecondCut {
-			if err := cut(p.Outage2, nil, p.Live3, "3"); err != nil {
+			if err := cut(p.Outage2, nil, p.Live3, "3", p.FailReload2); err != nil {
 				return "", err
 			}
 		}
@@ -585,14 +648,21 @@ func (c *c20Case) run(p c20Plan) (string, error) {
 	if err := c.write("sentinel", c.f.sentinel, "S"); err != nil {
 		return "", err
 	}
-	if err := waitTaken(c.f.sentinel.EtcdKey); err != nil {
-		return "", err
-	}
-	if err := c.write("sentinel2", c.f.sentinel2, "S2"); err != nil {
-		return "", err
-	}
-	if err := waitTaken(c.f.sentinel2.EtcdKey); err != nil {
-		return "", err
+	prefix := ""
+	if c.watcherDead {
+		// no goroutine of this router runs its watch loop any more although the router was not
+		// stopped: nothing will ever apply the sentinel (or any later lease change)
+		prefix = "the router's watcher goroutine exited after a watch-stream closure (router not stopped); "
+	} else {
+		if err := waitTaken(c.f.sentinel.EtcdKey); err != nil {
+			return "", err
+		}
+		if err := c.write("sentinel2", c.f.sentinel2, "S2"); err != nil {
+			return "", err
+		}
+		if err := waitTaken(c.f.sentinel2.EtcdKey); err != nil {
+			return "", err
+		}
 	}
 	kvs, err := c.etcdContent()
 	if err != nil {
@@ -620,7 +690,7 @@ func (c *c20Case) run(p c20Plan) (string, error) {
 	}
 	if len(diffs) > 0 {
 		sort.Strings(diffs)
-		return fmt.Sprintf("%s routing table differs from etcd after quiescence: %v; history=%+v", c.f.name, diffs, c.hist), nil
+		return fmt.Sprintf("%s%s routing table differs from etcd after quiescence: %v; history=%+v", prefix, c.f.name, diffs, c.hist), nil
 	}
 	return "", nil
 }
@@ -682,10 +752,12 @@ func c20Property(t *testing.T, leg string, f c20Flavour) {
 			p.Outage = c20Writes(rt, n, "outage", 3)
 			p.Gap2 = c20Writes(rt, n, "gap2", 2)
 			p.Live2 = c20Writes(rt, n, "live2", 3)
+			p.FailReload = rapid.IntRange(0, 2).Draw(rt, "failReload") == 1
 			p.SecondCut = rapid.IntRange(0, 5).Draw(rt, "cut2") == 3
 			if p.SecondCut {
 				p.Outage2 = c20Writes(rt, n, "outage2", 2)
 				p.Live3 = c20Writes(rt, n, "live3", 2)
+				p.FailReload2 = rapid.Bool().Draw(rt, "failReload2")
 			}
 		}
 		if known && (len(p.Gap1) > 0 || len(p.Gap2) > 0) {
@@ -738,6 +810,10 @@ func c20Property(t *testing.T, leg string, f c20Flavour) {
 		}
 		if p.SecondCut {
 			st.Class("second-cut")
+		}
+		if c.failedReload {
+			st.Class("reload-read-failed-once-after-a-cut")
+			nt = true
 		}
 		if touchedLoaded {
 			st.Class("watched-change-of-a-loaded-route")
